@@ -205,6 +205,21 @@ CHECKS = [
                 "first frame is rendered may either propagate or be swallowed; a cut CSI (not a graphics command) is "
                 "tolerated as the property only names graphics-protocol commands.",
     },
+    {
+        "property_id": "C14",
+        "technique": "schedule exploration with a harness-owned cooperative scheduler (generated thread schedules) + real multi-process stress with a shared-memory overlap monitor and id-carrying queries",
+        "text": "Engine A replaces the library's lock objects by instrumented re-entrant locks whose acquire/release are "
+                "scheduling points; 2-4 real threads run generated programs of synchronized probes (nested), "
+                "UrwidImageScreen methods and Process.start() through the real start wrapper, interleaved by a "
+                "generated schedule; a monitor asserts mutual exclusion, re-entrancy, absence of deadlock and lock "
+                "hand-over to started processes. Engine B, per start method fork/spawn/forkserver, runs real parent "
+                "threads, children and grandchildren on a real controlling pty: check-and-set on shared memory inside "
+                "synchronized probes, and id-carrying queries that must each receive exactly their own reply. A "
+                "re-entrancy clause exercises the library's real lock objects.",
+        "note": "Engine A owns schedules at lock-operation granularity; engine B only samples OS process schedules (a "
+                "race needing one specific cross-process interleaving may be missed); engine-B time-outs are "
+                "inconclusive, never violations; starts from inside a synchronized call are excluded as documented.",
+    },
 ]
 
 NOT_APPLICABLE = [
